@@ -208,7 +208,7 @@ def wrap_lp(fragment, lp):
     for t, hx in lp.get('hdr', []):
         if t >= tlvref.T_LP_FRAG_INDEX:
             headers.append((t, bytes.fromhex(hx)))
-    return tlvref.make_lp(None if lp.get('nofrag') else fragment, headers)
+    return tlvref.make_lp(None if lp.get('nofrag') else fragment, headers, order=lp.get('order'))
 
 
 def reframe_for_stream(wire):
@@ -277,6 +277,8 @@ def classify(wire, lp_mode='lib'):
                 return _classify(wire)
             if lp.frag_index is not None or lp.frag_count is not None:
                 return {'kind': 'junk', 'why': 'fragmented'}
+            if not lp.in_order:
+                return {'kind': 'junk', 'why': 'headers-out-of-order'}
             if not lp.fragment:
                 return {'kind': 'junk', 'why': 'idle'}
             if lp.nack:
@@ -296,6 +298,10 @@ def classify(wire, lp_mode='lib'):
                 lp = tlvref.parse_lp(wire)
                 if lp.frag_index is not None or lp.frag_count is not None:
                     return {'kind': 'junk', 'why': 'fragmented'}
+                if not lp.in_order:
+                    # header fields out of order / behind the Fragment: a decoder that silently skips them reads another
+                    # packet than the sender wrote
+                    return {'kind': 'junk', 'why': 'headers-out-of-order'}
             except tlvref.TlvError:
                 pass
         return _classify(wire)
@@ -457,7 +463,18 @@ class PipeWorld(World):
                 names = [bytes(c) for c in p.name]
                 if len(names) >= 4 and names[1] == tlvref.tlv(8, b'nfd'):
                     from engines.registration import build_response
-                    resp = bytes(enc.make_data(names, enc.MetaInfo(freshness_period=1000), build_response(200, 'OK', ['x'], {}),
+                    k = self.nfd_cmds = getattr(self, 'nfd_cmds', 0) + 1
+                    pols = self.cfg.get('nfd_fail') or []
+                    pol = pols[(k - 1) % len(pols)] if pols else 'ok'
+                    if pol != 'ok':
+                        self.stats['fault.nfd_' + pol] += 1
+                    if pol == 'silence':
+                        return
+                    if pol == 'nack':
+                        self.after(100, self._nfd_reply, tlvref.make_nack(wire, 150))
+                        return
+                    code, text = (200, 'OK') if pol == 'ok' else (403, 'Unauthorized')
+                    resp = bytes(enc.make_data(names, enc.MetaInfo(freshness_period=1000), build_response(code, text, ['x'], {}),
                                                signer=DigestSha256Signer()))
                     self.after(100, self._nfd_reply, resp)
             except tlvref.TlvError:
@@ -515,6 +532,12 @@ class PipeWorld(World):
                 await run(name)
                 return {'PASS': True, 'ALLOW_BYPASS': 1, 'FAIL': False, 'SILENCE': 0, 'TIMEOUT': None,
                         'TRUTHY_STR': 'ok', 'EMPTY': ''}.get(verdict, False)
+        if vspec.get('shape') == 'future':
+            # a plain function that hands back a Task (e.g. work pushed to an executor) instead of being `async def`
+            inner = validator
+
+            def validator(*a):
+                return asyncio.ensure_future(inner(*a))
         if vspec.get('falsy'):
             return _FalsyCallable(validator)    # a validator OBJECT that happens to be falsy (e.g. holds an empty list)
         return validator
@@ -771,6 +794,11 @@ class PipeWorld(World):
             self.log('reply', hid=hid, nonce=nonce, ri=k, ret=None, ret_repr='NetworkError', data=dwire,
                      sent=self.tx[n0:])
 
+    def op_register_only(self, op):
+        if self.fe != 'v2' and self.cfg.get('nfd') and self.face.running:
+            self.spawn(self._v1_register(name_in_repr(op['prefix'], 'uri'), None, None))
+            self.log('register-only', prefix=comps_of(op['prefix']))
+
     def op_detach(self, op):
         name = name_in_repr(op['prefix'], op.get('repr', 'uri'))
         try:
@@ -849,7 +877,8 @@ class PipeWorld(World):
             self.loop.call_soon(self._start)
             table = {'express': self.op_express, 'cancel': self.op_cancel, 'rx': self.op_rx,
                      'attach': self.op_attach, 'detach': self.op_detach, 'shutdown': self.op_shutdown,
-                     'eof': self.op_eof, 'reset': self.op_eof, 'wall_jump': self.op_wall_jump}
+                     'eof': self.op_eof, 'reset': self.op_eof, 'wall_jump': self.op_wall_jump,
+                     'register_only': self.op_register_only}
             ops = sorted(self.scenario['ops'], key=lambda o: o['at'])      # stable: scripted order kept
             i = 0
             while i < len(ops):
